@@ -58,6 +58,22 @@ fn snapshot() -> BTreeMap<RawFd, Ident> {
     (0..SCAN).filter_map(|fd| ident(fd).map(|i| (fd, i))).collect()
 }
 
+/// Two consecutive scans that agree: descriptors that another thread of this process is just about
+/// to close (a thread-pool worker releasing its reference to the previous case's poller after the
+/// runtime is gone) are not part of any case.
+fn stable_snapshot() -> BTreeMap<RawFd, Ident> {
+    let mut a = snapshot();
+    for _ in 0..400 {
+        std::thread::sleep(Duration::from_millis(5));
+        let b = snapshot();
+        if a == b {
+            return b;
+        }
+        a = b;
+    }
+    a
+}
+
 fn describe(fd: RawFd) -> String {
     std::fs::read_link(format!("/proc/self/fd/{fd}")).map(|p| p.display().to_string()).unwrap_or_else(|_| "?".into())
 }
@@ -532,12 +548,20 @@ pub fn run_fd(case: &FdCase) -> Outcome {
         Ok(t) => t,
         Err(e) => return Outcome::inconclusive(format!("tempdir: {e}")),
     };
-    let before = snapshot();
+    let before = stable_snapshot();
     *LIVE_OPS.lock().unwrap() = Some(Default::default());
     compio_driver::verif::set_sink(Some(sink));
     let out = run_inner(case, tmp.path().to_path_buf());
     compio_driver::verif::set_sink(None);
-    let after = snapshot();
+    // a leaked descriptor stays; one that a worker thread is still closing disappears by itself
+    let mut after = snapshot();
+    for _ in 0..400 {
+        if after == before {
+            break;
+        }
+        std::thread::sleep(Duration::from_millis(5));
+        after = snapshot();
+    }
     let (mut outcome, lab_labels, nontrivial) = match out {
         Ok((labels, nontrivial)) => (None, labels, nontrivial),
         Err(o) => (Some(o), vec![], false),
@@ -837,7 +861,9 @@ fn run_inner(case: &FdCase, dir: PathBuf) -> Result<(Vec<String>, bool), Outcome
                         Box::pin(async move { l.accept().await.map(|(s, _)| vec![H::Unix(s)]) }) as Pin<Box<dyn Future<Output = Out>>>
                     }),
                     Produce::Open => {
-                        let p = dir.join("opened");
+                        // a fresh file every time: descriptor identity is (dev, ino), and a re-opened
+                        // file on a re-used descriptor number would look like the old object
+                        let p = dir.join(format!("opened{si}"));
                         let _ = std::fs::write(&p, b"x");
                         Some(Box::pin(async move { File::open(&p).await.map(|f| vec![H::File(f)]) }))
                     }
@@ -1034,6 +1060,7 @@ fn main() {
     p.quick_cases = 2400;
     p.thorough_cases = 24000;
     p.threads = 1;
+    p.crash_guard = true;
     p.max_shrink_iters = 600;
     p.assumptions = vec![
         "a close() future is never dropped before its first poll (documented: then the descriptor is intentionally not closed)",
